@@ -14,6 +14,7 @@ import ThaiLintModel.C07.Drv
 import ThaiLintModel.C08.Drv
 import ThaiLintModel.C09.Drv
 import ThaiLintModel.C10.Drv
+import ThaiLintModel.C11.Drv
 import ThaiLintModel.C12.Drv
 import ThaiLintModel.C13.Drv
 import ThaiLintModel.C14.Drv
@@ -36,6 +37,7 @@ def dispatch (j : Json) : Json :=
   | "C08" => ThaiLintModel.C08.handle j
   | "C09" => ThaiLintModel.C09.handle j
   | "C10" => ThaiLintModel.C10.handle j
+  | "C11" => ThaiLintModel.C11.handle j
   | "C12" => ThaiLintModel.C12.handle j
   | "C13" => ThaiLintModel.C13.handle j
   | "C14" => ThaiLintModel.C14.handle j
